@@ -243,6 +243,8 @@ def program_text(P):
         L += body_text(P["monitor"], 4, "monitor")
     for name, sub in P.get("subs", {}).items():
         L.append(f"scenario {name}():")
+        for c in sub.get("pre", []):
+            L.append(f"    precondition: _symx_cond({c!r})")
         L.append("    setup:")
         setup = []
         if sub.get("terminate_after"):
@@ -644,6 +646,9 @@ class SubScenario:
             self.running = False
 
     def _steps(self, ref, sub):
+        for c in sub.get("pre", []):  # preconditions are checked when the scenario starts
+            if not ref.cond(c):
+                raise RefReject("precondition " + c)
         if sub.get("setup_log"):
             ref.ev(sub["setup_log"])
         limit = None
